@@ -15,7 +15,7 @@ namespace VaxisModel.Props.C16Draw
 open VaxisModel.Model VaxisModel.Model.WrapDraw
 open VaxisModel.Model.Wrap (Cell sumW richLines plainLines hardLines Lines)
 open VaxisModel.Lemmas.WrapDraw
-open VaxisModel.Spec.WrapDraw (over overHard width splitNl)
+open VaxisModel.Spec.WrapDraw (over overHard hardLine width splitNl)
 
 /-- What the current source says (extracted facts): surface arithmetic in `int`, `WriteCell` rejects
 `row >= Height`; soft-wrap `findContainerSize` stops at `size.Height >= Max.Height`; the row loop of
@@ -242,24 +242,30 @@ final "\n" adds no empty line, the empty text has no line). -/
 theorem hardwrap_is_split_at_newline (cells : List Cell) : hardLines cells = .ok (splitNl cells) :=
   hardLines_eq_split cells
 
-/-- What the source says about the hard-wrap mode of `RichText.Draw` (extracted guards). -/
+/-- What the source says about the hard-wrap mode of `RichText.Draw` / `Text.Draw` (extracted guards;
+the ellipsis condition is `truncate && col+uint16(char.Width) >= ctx.Max.Width` with `truncate` = the
+int sum of the widths of the line exceeds `Max.Width` — since /repo 65842f0, finding F316). -/
 theorem facts_hard_mode :
     (Layout.richMode true).hard = true ∧ (Layout.richMode true).sizeStrict = true ∧
     (Layout.richMode true).drawStrict = true ∧ (Layout.richMode true).fill = none ∧
-    (Layout.richMode true).ellipsisStyle = none := ⟨rfl, rfl, rfl, rfl, rfl⟩
+    (Layout.richMode true).ellipsisStyle = none ∧
+    (Layout.richMode true).ell = [.lineTooWide, .reach] ∧
+    (∀ st, (Layout.textMode true st).ell = [.lineTooWide, .reach]) := ⟨rfl, rfl, rfl, rfl, rfl, rfl, fun _ => rfl⟩
 
 /-- **`RichText.Draw` with `Softwrap = false`**, for every text and every `Max`: no panic, no hang;
-`min (#lines) Max.Height` rows where the lines are the split of the cells at the "\n" graphemes
-(`hardwrap_is_split_at_newline`); row `y` shows line `y` as `Spec.WrapDraw.overHard` describes the
-code: graphemes at their columns, the first one that reaches or passes `Max.Width` replaced by "…"
-in its own style, the rest dropped. -/
+`min (#lines) Max.Height` rows where the lines are the split of the cells at the hard line breaks
+(`hardwrap_is_split_at_newline`); row `y` shows `Spec.WrapDraw.hardLine` of line `y`: **the line
+unaltered when it fits `Max.Width`, else its longest prefix that leaves room for the ellipsis followed
+by the ellipsis** (`hard_line_fits_unaltered`, `hard_line_truncated_longest_prefix`), every grapheme
+at the column equal to the width of the graphemes before it (`over`), the ellipsis in the style of
+the first grapheme it replaces. -/
 theorem hard_draw_rows (maxW maxH : UInt16) (cells : List Cell)
     (hw : ∀ l ∈ splitNl cells, sumW l < 65536) :
     ∃ s, richHardDraw maxW maxH cells = .ok s ∧
       s.h.toNat = min (splitNl cells).length maxH.toNat ∧
       s.buf.length = s.h.toNat * s.w.toNat ∧
       ∀ x y, x < s.w.toNat → y < s.h.toNat →
-        cellAt s x y = overHard maxW.toNat none (((splitNl cells).getD y []).map toWin) 0 (fun _ => some default) x := by
+        cellAt s x y = over (hardLine maxW.toNat none (((splitNl cells).getD y []).map toWin)) 0 (fun _ => some default) x := by
   have hall : ∀ l ∈ (splitNl cells).map (·.map toWin), (∀ c ∈ l, 0 ≤ c.w) ∧ width l < 65536 := by
     intro l hl
     obtain ⟨l0, hl0, rfl⟩ := List.mem_map.mp hl
@@ -267,7 +273,7 @@ theorem hard_draw_rows (maxW maxH : UInt16) (cells : List Cell)
     intro c hc
     obtain ⟨c0, _, rfl⟩ := List.mem_map.mp hc
     simp [toWin]
-  obtain ⟨s, h1, _, h3, h4, h5⟩ := drawText_cells_hard (Layout.richMode true) rfl rfl rfl (ctxOf maxW maxH) _ hall
+  obtain ⟨s, h1, _, h3, h4, h5⟩ := drawText_cells_hard (Layout.richMode true) rfl rfl rfl rfl (ctxOf maxW maxH) _ hall
   refine ⟨s, ?_, by simpa [ctxOf] using h3, h4, ?_⟩
   · simp only [richHardDraw, hardwrap_is_split_at_newline, facts_draw_modes.1, h1, WrapDraw.ofExcept]
   · intro x y hx hy
@@ -278,8 +284,8 @@ theorem hard_draw_rows (maxW maxH : UInt16) (cells : List Cell)
     rw [this]; rfl
 
 /-- **`Text.Draw` with `Softwrap = false`** on the lines `bufio.Scanner` hands it (a parameter: any
-list of lines, already passed through `ctx.Characters`): the same row loop with the ellipsis in the
-widget's style, on a surface filled with that style. -/
+list of lines, already passed through `ctx.Characters`): the same rows — `hardLine` of each line,
+the ellipsis in the widget's style — on a surface filled with that style. -/
 theorem text_hard_draw_rows (style : Nat) (maxW maxH : UInt16) (lines : List (List Cell))
     (hw : ∀ l ∈ lines, sumW l < 65536) :
     ∃ s, Layout.drawText Surface.srcArith (Layout.textMode true style) (ctxOf maxW maxH)
@@ -287,7 +293,7 @@ theorem text_hard_draw_rows (style : Nat) (maxW maxH : UInt16) (lines : List (Li
       s.h.toNat = min lines.length maxH.toNat ∧
       s.buf.length = s.h.toNat * s.w.toNat ∧
       ∀ x y, x < s.w.toNat → y < s.h.toNat →
-        cellAt s x y = overHard maxW.toNat (some style) ((lines.getD y []).map (toWinSt style)) 0
+        cellAt s x y = over (hardLine maxW.toNat (some style) ((lines.getD y []).map (toWinSt style))) 0
           (fun _ => some { (default : Window.Cell) with st := style }) x := by
   have hall : ∀ l ∈ lines.map (·.map (toWinSt style)), (∀ c ∈ l, 0 ≤ c.w) ∧ width l < 65536 := by
     intro l hl
@@ -296,7 +302,7 @@ theorem text_hard_draw_rows (style : Nat) (maxW maxH : UInt16) (lines : List (Li
     intro c hc
     obtain ⟨c0, _, rfl⟩ := List.mem_map.mp hc
     simp [toWinSt]
-  obtain ⟨s, h1, _, h3, h4, h5⟩ := drawText_cells_hard (Layout.textMode true style) rfl rfl rfl (ctxOf maxW maxH) _ hall
+  obtain ⟨s, h1, _, h3, h4, h5⟩ := drawText_cells_hard (Layout.textMode true style) rfl rfl rfl rfl (ctxOf maxW maxH) _ hall
   refine ⟨s, by rw [facts_draw_modes.1]; exact h1, by simpa [ctxOf] using h3, h4, ?_⟩
   intro x y hx hy
   rw [h5 x y hx hy]
@@ -305,20 +311,81 @@ theorem text_hard_draw_rows (style : Nat) (maxW maxH : UInt16) (lines : List (Li
     cases lines[y]? <;> rfl
   rw [this]; rfl
 
-/-- "draws exactly the line" for the hard-wrap widget, full statement: a line that fits the widget
-(`width ≤ Max.Width`) is drawn as it is.  **False** of the current code (finding F316: a line that
-fits exactly loses its last grapheme to an ellipsis). -/
-def hard_draw_exact_full : Prop :=
-  ∀ (maxW : Nat) (est : Option Nat) (line : List Window.Cell) (f : Nat → Option Window.Cell) (x : Nat),
-    width line ≤ maxW → overHard maxW est line 0 f x = over line 0 f x
+/-- **A line that fits is drawn unaltered** (`width ≤ Max.Width`, equality included — false before
+/repo 65842f0, finding F316, `Witness.F316`): the row of `hard_draw_rows` / `text_hard_draw_rows` is
+the row the soft-wrap mode shows for the same line. -/
+theorem hard_line_fits_unaltered (maxW : Nat) (est : Option Nat) (line : List Window.Cell)
+    (h : width line ≤ maxW) : hardLine maxW est line = line := by
+  simp [hardLine, h]
 
-theorem hard_draw_exact_full_fails : ¬ hard_draw_exact_full := VaxisModel.Witness.F316.exact_fit_is_truncated
+theorem width_append (p q : List Window.Cell) : width (p ++ q) = width p + width q := by
+  simp [width]
 
-/-- …proved for lines strictly narrower than `Max.Width`: drawn exactly as in the soft-wrap mode,
-no ellipsis. -/
-theorem hard_draw_exact_partial (maxW : Nat) (est : Option Nat) (line : List Window.Cell)
+/-- `Spec.WrapDraw.truncated`, started with `col` columns used: the cut falls in front of a grapheme
+`c`; what is kept leaves a column for the ellipsis; with `c` it would not. -/
+theorem truncated_cut (maxW : Nat) (est : Option Nat) : ∀ (line : List Window.Cell) (col : Nat),
+    col ≤ maxW → col + width line > maxW →
+    ∃ p c rest, line = p ++ c :: rest ∧
+      Spec.WrapDraw.truncated maxW est line col = p ++ [Spec.WrapDraw.ellipsisFor est c] ∧
+      (col + 1 ≤ maxW → col + width p + 1 ≤ maxW) ∧ col + width (p ++ [c]) + 1 > maxW := by
+  intro line
+  induction line with
+  | nil => intro col h1 h2; simp [width] at h2; omega
+  | cons c cs ih =>
+    intro col h1 h2
+    simp only [width, List.map_cons, List.sum_cons] at h2
+    by_cases hk : col + c.w.toNat + 1 ≤ maxW
+    · obtain ⟨p, c', rest, e1, e2, e3, e4⟩ := ih (col + c.w.toNat) (by omega) (by simp only [width]; omega)
+      refine ⟨c :: p, c', rest, by rw [e1]; rfl, by simp only [Spec.WrapDraw.truncated, hk, ↓reduceIte, e2]; rfl, ?_, ?_⟩
+      · intro _
+        have := e3 hk
+        simp only [width, List.map_cons, List.sum_cons] at this ⊢; omega
+      · simp only [width, List.cons_append, List.map_cons, List.sum_cons] at e4 ⊢; omega
+    · refine ⟨[], c, cs, rfl, by simp only [Spec.WrapDraw.truncated, hk, ↓reduceIte]; rfl, by intro h; simpa [width] using h, ?_⟩
+      simp only [width, List.nil_append, List.map_cons, List.map_nil, List.sum_cons, List.sum_nil]; omega
+
+/-- **A line that does not fit is drawn as its longest prefix that leaves room for the ellipsis,
+followed by the ellipsis**: `hardLine` is `line.take k ++ […]` where the "…" (width 1) has the style
+of grapheme `k`, the first one dropped (or the widget's style); the `k` graphemes kept leave a column
+free (whenever the widget has a column at all), and no longer prefix of the line does. -/
+theorem hard_line_truncated_longest_prefix (maxW : Nat) (est : Option Nat) (line : List Window.Cell)
+    (h : width line > maxW) :
+    ∃ (k : Nat) (hk : k < line.length),
+      hardLine maxW est line = line.take k ++ [Spec.WrapDraw.ellipsisFor est line[k]] ∧
+      (0 < maxW → width (line.take k) + 1 ≤ maxW) ∧
+      ∀ n, n ≤ line.length → width (line.take n) + 1 ≤ maxW → n ≤ k := by
+  obtain ⟨p, c, rest, e1, e2, e3, e4⟩ := truncated_cut maxW est line 0 (by omega) (by omega)
+  have hk : p.length < line.length := by rw [e1]; simp
+  have htake : line.take p.length = p := by rw [e1]; simp
+  have hget : line[p.length] = c := by simp [e1]
+  refine ⟨p.length, hk, ?_, ?_, ?_⟩
+  · rw [htake, hget]
+    simp only [hardLine, show ¬ width line ≤ maxW by omega, ↓reduceIte, e2]
+  · intro h0
+    rw [htake]
+    have := e3 (by omega); omega
+  · intro n hn hw
+    by_cases hle : n ≤ p.length
+    · exact hle
+    · exfalso
+      obtain ⟨m, rfl⟩ : ∃ m, n = p.length + 1 + m := ⟨n - p.length - 1, by omega⟩
+      have : line.take (p.length + 1 + m) = (p ++ [c]) ++ rest.take m := by
+        rw [e1, List.take_append]
+        have h1 : List.take (p.length + 1 + m) p = p := List.take_of_length_le (by omega)
+        have h2 : p.length + 1 + m - p.length = m + 1 := by omega
+        rw [h1, h2, List.take_succ_cons]
+        simp
+      rw [this, width_append] at hw
+      omega
+
+/-- Non-vacuity / the old statement: a line strictly narrower than `Max.Width` never met the ellipsis
+branch at all (`overHard` = the loop of the code for a line with `truncate` set). -/
+theorem hard_draw_exact_narrow (maxW : Nat) (est : Option Nat) (line : List Window.Cell)
     (f : Nat → Option Window.Cell) (h : width line < maxW) : overHard maxW est line 0 f = over line 0 f :=
   overHard_fits maxW est line 0 f (by simpa using h)
+
+example : hardLine 3 none [⟨5, 1, 0⟩, ⟨6, 2, 0⟩] = [⟨5, 1, 0⟩, ⟨6, 2, 0⟩] ∧
+    hardLine 2 none [⟨5, 1, 0⟩, ⟨6, 2, 7⟩] = [⟨5, 1, 0⟩, ⟨Window.gEllipsis, 1, 7⟩] := by decide
 
 /-- Non-vacuity: "世a" drawn by RichText at Max 5×3 gives a 3×1 surface `世 _ a`. -/
 example :
